@@ -331,13 +331,16 @@ def run_numjac(task):
                 mi.step(st[2], y, None)          # an adaptive stepper evaluated the derivative at another (later) time first
             Jn, _ = mi.numerical_jacobian(t, y, None)
             fd = np.zeros((m, m))
+            fdnoise = np.zeros((m, m))
             h = 1e-6
             for j in range(m):
                 yp, ym = y.copy(), y.copy()
                 yp[j] += h
                 ym[j] -= h
-                fd[:, j] = (np.array(mi.step(t, yp, None), dtype=float) - np.array(mi.step(t, ym, None), dtype=float)) / (2 * h)
-            err = float(np.max(np.abs(np.array(Jn, dtype=float) - fd) / (1.0 + np.abs(fd))))
+                fp, fm = np.array(mi.step(t, yp, None), dtype=float), np.array(mi.step(t, ym, None), dtype=float)
+                fd[:, j] = (fp - fm) / (2 * h)
+                fdnoise[:, j] = (np.abs(fp) + np.abs(fm)) * 2.3e-16 / (2 * h)     # rounding of the two evaluations, divided by the step
+            err = float(np.max(np.maximum(np.abs(np.array(Jn, dtype=float) - fd) - 20 * fdnoise, 0.0) / (1.0 + np.abs(fd))))
             worst = max(worst, err)
             rows.append({"t": t, "y": y.tolist(), "J": np.array(Jn).tolist(), "fd": fd.tolist(), "err": err})
         return {"outcome": "Ok", "worst": worst, "rows": rows[:2], "x": [str(s) for s in sub.x_], "has_analytic": bool(ana)}
@@ -478,15 +481,35 @@ def _flow_probe(indict, ana, seed):
     upd = {k: sympy.parsing.sympy_parser.parse_expr(v, global_dict=dict(ns)) for k, v in ana["update_expressions"].items()}
     hs = sympy.Symbol((indict.get("options") or {}).get("output_timestep_symbol", "__h"))
 
-    def step(xv, hv, pv):
+    def step(xv, hv, pv, P=None, U=None):
+        P = props if P is None else P
+        U = upd if U is None else U
         sub = dict(pv)
         sub[hs] = hv
-        pnum = {sympy.Symbol(k): e.evalf(40, subs=sub) for k, e in props.items()}
+        pnum = {sympy.Symbol(k): e.evalf(40, subs=sub) for k, e in P.items()}
         sub2 = dict(pv)
         sub2.update(pnum)
         sub2[hs] = hv
         sub2.update({xs[i]: xv[i] for i in range(len(av))})
-        return [upd[v].evalf(40, subs=sub2) for v in av]
+        return [U[v].evalf(40, subs=sub2) for v in av]
+
+    # The toolbox prints numeric constants with 15 significant digits.  What that rounding alone can do to a value is
+    # measured, not guessed: every inexact Float constant of the returned expressions is perturbed by a relative 1e-15
+    # (two random draws) and the spread of the results is the noise floor of the comparison.
+    def perturbed(e):
+        rep = {}
+        for f in e.atoms(sympy.Float):
+            if float(f).as_integer_ratio()[1] > 2 ** 30:
+                rep[f] = sympy.Float(f, 40) * (1 + sympy.Float(rng.uniform(-1, 1) * 1e-15, 40))
+        return e.xreplace(rep) if rep else e
+    variants = [({k: perturbed(e) for k, e in props.items()}, {k: perturbed(e) for k, e in upd.items()}) for _ in range(2)]
+
+    def cabs(z):
+        re_, im_ = z.as_real_imag()
+        return abs(complex(float(re_), float(im_)))
+
+    def noise_of(ref, others, i):
+        return max([cabs(o[i] - ref[i]) for o in others] + [0.0])
 
     for trial in range(3):
         pv = {s: sympy.Float(rng.uniform(0.6, 2.5), 40) for s in free if s not in xs}
@@ -494,29 +517,35 @@ def _flow_probe(indict, ana, seed):
         Mn = mpmath.matrix([[mpmath.mpf(str(M[i, j].evalf(40, subs=pv))) for j in range(len(av))] + [mpmath.mpf(str(c[i].evalf(40, subs=pv)))] for i in range(len(av))] + [[0] * (len(av) + 1)])
         for hv in (0.0, 0.37, 1.3):
             got = step(xv, sympy.Float(hv, 40), pv)
+            others = [step(xv, sympy.Float(hv, 40), pv, P_, U_) for P_, U_ in variants]
             E = mpmath.expm(Mn * mpmath.mpf(hv))
             vec = mpmath.matrix([mpmath.mpf(str(v)) for v in xv] + [1])
             exp = E * vec
             for i in range(len(av)):
                 try:
+                    noise = 50 * noise_of(got, others, i)
                     gre, gim = got[i].as_real_imag()
-                    if abs(float(gim)) > 1e-25 * (1 + abs(float(gre))):
+                    if abs(float(gim)) > 1e-25 * (1 + abs(float(gre))) + noise:
                         raise ValueError("complex")
                     g = mpmath.mpf(str(gre))
                 except Exception:
                     return {"worst": 1.0, "detail": "update of %s is not a real number at h=%s: %s" % (av[i], hv, got[i])}
-                # constants are printed with 15 digits; inside an exponent their error is amplified by |M| h
-                err = abs(g - exp[i]) / (1 + abs(exp[i])) / (1 + mpmath.mnorm(Mn, 'inf') * hv)
+                # inside an exponent the error of a constant is amplified by |M| h
+                err = max(abs(g - exp[i]) - noise, 0) / (1 + abs(exp[i])) / (1 + mpmath.mnorm(Mn, 'inf') * hv)
                 if err > worst:
                     worst = float(err)
-                    detail = "h=%s variable %s: update gives %s, exact flow %s (params %s, state %s)" % (hv, av[i], mpmath.nstr(g, 15), mpmath.nstr(exp[i], 15), {str(k): float(v) for k, v in pv.items()}, [float(v) for v in xv])
+                    detail = "h=%s variable %s: update gives %s, exact flow %s; rounding of the printed constants explains %s (params %s, state %s)" % (
+                        hv, av[i], mpmath.nstr(g, 15), mpmath.nstr(exp[i], 15), mpmath.nstr(noise, 3), {str(k): float(v) for k, v in pv.items()}, [float(v) for v in xv])
         # two-step law on the toolbox's own expressions
-        a = step(xv, sympy.Float(0.4, 40), pv)
-        b2 = step(a, sympy.Float(0.9, 40), pv)
-        c2 = step(xv, sympy.Float(1.3, 40), pv)
+        def two(P_=None, U_=None):
+            a_ = step(xv, sympy.Float(0.4, 40), pv, P_, U_)
+            return step(a_, sympy.Float(0.9, 40), pv, P_, U_), step(xv, sympy.Float(1.3, 40), pv, P_, U_)
+        b2, c2 = two()
+        alt = [two(P_, U_) for P_, U_ in variants]
         for i in range(len(av)):
+            noise = 50 * (noise_of(b2, [x_[0] for x_ in alt], i) + noise_of(c2, [x_[1] for x_ in alt], i))
             b2r, c2r = mpmath.mpf(str(b2[i].as_real_imag()[0])), mpmath.mpf(str(c2[i].as_real_imag()[0]))
-            err = abs(b2r - c2r) / (1 + abs(c2r)) / (1 + mpmath.mnorm(Mn, 'inf') * 1.3)
+            err = max(abs(b2r - c2r) - noise, 0) / (1 + abs(c2r)) / (1 + mpmath.mnorm(Mn, 'inf') * 1.3)
             if err > worst:
                 worst = float(err)
                 detail = "two-step law violated for %s: step(0.4) then step(0.9) = %s, step(1.3) = %s" % (av[i], b2[i], c2[i])
